@@ -123,6 +123,8 @@ static int in_child;
 static pthread_key_t exit_key;
 static int exit_key_ok;
 static uint64_t case_seed = 1;
+static pthread_t main_pth;
+static int main_set;
 struct vt_stats vt_stats;
 
 /* virtual timerfds, indexed by descriptor */
@@ -441,6 +443,14 @@ int __wrap_pthread_create(pthread_t *th, const pthread_attr_t *attr, void *(*fn)
 
 	if (!virtual_on || vt_nonparticipant)
 		return __real_pthread_create(th, attr, fn, arg);
+	/* fault "thread_create": only threads that are not created by the main thread (the harnesses create theirs from there) */
+	if (main_set && !pthread_equal(pthread_self(), main_pth)) {
+		int inj = fault_check("thread_create");
+		if (inj) {
+			hk_thread_create(0, inj);
+			return inj;
+		}
+	}
 
 	tr = malloc(sizeof(*tr));
 	tr->fn = fn;
@@ -1370,6 +1380,8 @@ void vt_init(void)
 	const char *s;
 
 	my_slot = slot_alloc();
+	main_pth = pthread_self();
+	main_set = 1;
 	if (pthread_key_create(&exit_key, exit_dtor) == 0)
 		exit_key_ok = 1;
 	if ((s = getenv("VT_FAULTS")) != NULL && vt_fault_plan(s) < 0) {
